@@ -534,3 +534,80 @@ example :
     let c : Ctx := { ro := ro, sub := sub, wl := default, br := some default, net := n, mem := Mem.empty }
     (doFinalising c .success false).map (fun r => (r.1.sub.finStep, r.1.net.stableSel, r.2.1)) =
       some (.restoreStableService, none, false) := by decide
+
+/-! ### C01.5 — the exposure chain across the two controllers
+
+The three links are proved about three different pieces of code; this section states how they compose.
+1. (Rollout controller) whatever `doCanaryUpgrade` leaves behind, the BatchRelease's batch partition is
+   the current step index − 1 (`upgrade_partition_tracks_step`);
+2. (BatchRelease executor) the executor's current batch never passes the partition
+   (`RV.Props.Executor.within_partition`) and advances only from a batch that passed its readiness check
+   (`batch_advance_guarded`);
+3. (control plane) the knob written for batch `cb` exposes at most what plan entry `cb` allows, up to the
+   < 1 % percent slack (`RV.Props.C01.write_exposure_bound`).
+For a plan whose entries are non-decreasing in the pods they ask for, (1)–(3) give: the workload's exposure
+is within what the rollout's *current* step allows (`exposure_within_current_step`). -/
+
+open RV.BatchCtx RV.Oracle.Batch in
+/-- plan entries never ask for fewer pods than an earlier entry -/
+def PlanMonotone (R : Int) (plan : List IntOrPct) : Prop :=
+  ∀ (i j : Nat) (a b : IntOrPct), i ≤ j → plan[i]? = some a → plan[j]? = some b → calcBatchReplicas R a ≤ calcBatchReplicas R b
+
+/-- link 1: after `doCanaryUpgrade` (create, update or accept), the BatchRelease asks for exactly the
+    batch of the current step -/
+theorem upgrade_partition_tracks_step (ro : Rollout) (s : Sub) (wl : WL) (br : Option BR) (b : BR)
+    (h : (doCanaryUpgrade ro s wl br).2.1 = some b) : b.partition = some (s.curIdx - 1) := by
+  have hrun : ∀ b', (runBatchRelease ro br (getRolloutID wl) s.curIdx wl.inRollback).2.1 = some b' →
+      b'.partition = some (s.curIdx - 1) := by
+    intro b' hb'
+    unfold runBatchRelease at hb'
+    dsimp only at hb'
+    split at hb'
+    · cases hb'; rfl
+    · rename_i b0
+      split at hb'
+      · rename_i heq
+        cases hb'
+        unfold brSpecEq desiredBR at heq
+        simp only [Bool.and_eq_true, beq_iff_eq] at heq
+        exact heq.1.1.1.1.2
+      · cases hb'; rfl
+  unfold doCanaryUpgrade at h
+  dsimp only at h
+  split at h
+  · exact hrun b h
+  · split at h
+    · exact hrun b h
+    · split at h
+      · exact hrun b h
+      · split at h <;> exact hrun b h
+
+open RV.BatchCtx RV.Oracle.Batch in
+/-- **C01.5 (composition)** — for every workload kind, size and monotone plan: if the BatchRelease's
+    partition is the rollout's current step − 1, the executor's current batch has not passed the partition,
+    and the knob in force was written for that batch within its allowance, then the workload's exposure is
+    within what the rollout's current step allows (for a CloneSet percent entry: within < 1 % of the size). -/
+theorem exposure_within_current_step (kind : Kind) (R : Int) (plan : List IntOrPct) (cur cb : Nat) (p : Int)
+    (ecb ecur : IntOrPct) (w : IntOrPct)
+    (hmono : PlanMonotone R plan) (hpart : p = (cur : Int) - 1) (hcb : (cb : Int) ≤ p)
+    (h1 : plan[cb]? = some ecb) (h2 : plan[cur - 1]? = some ecur)
+    (hw : exposureBound kind R ecb none w = true) :
+    exposureOf kind w R ≤ calcBatchReplicas R ecur ∨ 100 * (exposureOf kind w R - calcBatchReplicas R ecur) < max R 1 := by
+  have hle : calcBatchReplicas R ecb ≤ calcBatchReplicas R ecur := hmono cb (cur - 1) ecb ecur (by omega) h1 h2
+  unfold exposureBound allowed at hw
+  dsimp only at hw
+  split at hw
+  · right
+    have := of_decide_eq_true hw
+    omega
+  · left
+    have := of_decide_eq_true hw
+    omega
+
+open RV.BatchCtx RV.Oracle.Batch in
+/-- non-vacuity: 10 replicas, plan 20 % / 50 %, executor at batch 1 -/
+example : PlanMonotone 10 [IntOrPct.pct 20, IntOrPct.pct 50] ∧
+    exposureBound .cloneSet 10 (IntOrPct.pct 50) none (desKnob .cloneSet 10 (IntOrPct.pct 50) none) = true := by
+  refine ⟨?_, by decide⟩
+  intro i j a b hij ha hb
+  rcases i with _ | _ | i <;> rcases j with _ | _ | j <;> simp at ha hb <;> (try omega) <;> (subst ha; subst hb; decide)
